@@ -36,6 +36,7 @@ CreateClauses(pre, ev, post) ==
     \cup C("C12.DuplicateChangesNothing", dup => SameOrders(pre, post) /\ ev.recs = <<>> /\ post.cost = pre.cost)
     \cup C("C12.AcceptedQueuesAndScans", ~dup => SameOrders(x.M, post))
     \cup C("C12.EnterRecord", ~dup => ev.recs = << <<"enter_queue", pre.now, ev.t, ev.g>> >>)
+    \cup C("C15.OneEnterQueueRecordPerAcceptedOrder", IF dup THEN ev.recs = <<>> ELSE ev.recs = << <<"enter_queue", pre.now, ev.t, ev.g>> >>)
     \cup C("C12.NoHooksAtRequest", ev.hooks = <<>> /\ post.cost = pre.cost)
     \cup C("D.CreateFn", post = x.M)
 
@@ -45,6 +46,9 @@ StartClauses(pre, ev, post) ==
     ELSE C("C12.StartHookOnce", Sel(ev.hooks, "start") = << <<"start", ev.t, ev.g>> >> /\ Sel(ev.hooks, "end") = <<>>)
          \cup C("C12.StartRecord", /\ Sel(ev.recs, "start_work_order") = << <<"start_work_order", post.now, ev.t, ev.g>> >>
                                    /\ Sel(ev.recs, "finish_work_order") = <<>>)
+         \cup C("C15.OneStartRecordPerStartedOrder",
+                /\ Sel(ev.recs, "start_work_order") = << <<"start_work_order", post.now, ev.t, ev.g>> >>
+                /\ Sel(ev.recs, "finish_work_order") = <<>>)
          \cup C("C12.CostChargedOnce", post.cost = pre.cost + CostOf(ev.t, ev.g))
          \cup C("C12.StartedNow", \E s \in post.started : s.t = ev.t /\ s.g = ev.g /\ s.at = post.now)
          \cup C("C12.StartKeepsSelection", SameOrders(StartWork(pre, e), post))
@@ -57,6 +61,9 @@ FinishClauses(pre, ev, post) ==
          \cup C("C12.EndHookOnce", Sel(ev.hooks, "end") = << <<"end", ev.t, ev.g>> >> /\ Sel(ev.hooks, "start") = <<>>)
          \cup C("C12.FinishRecord", /\ Sel(ev.recs, "finish_work_order") = << <<"finish_work_order", post.now, ev.t, ev.g>> >>
                                     /\ Sel(ev.recs, "start_work_order") = <<>>)
+         \cup C("C15.OneFinishRecordPerFinishedOrder",
+                /\ Sel(ev.recs, "finish_work_order") = << <<"finish_work_order", post.now, ev.t, ev.g>> >>
+                /\ Sel(ev.recs, "start_work_order") = <<>>)
          \cup C("C12.FinishFreesAndRescans", SameOrders(FinishWork(pre, e), post))
          \cup C("C12.NoCostAtFinish", post.cost = pre.cost)
          \cup C("D.FinishFn", post = FinishWork(pre, e))
